@@ -50,6 +50,7 @@ type itBodyResult struct {
 	Yields [][]int64  `json:"yields"` // [key, value (or -1), clock at the yield]
 	St0    []int64    `json:"st0"`    // hits, misses before
 	St1    []int64    `json:"st1"`    // hits, misses after
+	Done   [][]int64  `json:"done"`   // the loop body's writes as performed: [key, 1 = set / 0 = invalidate, new value, clock, new deadline]
 }
 
 // runIterBody: one goroutine, same-goroutine executor, manual clock.  The loop body of the iteration moves the clock,
@@ -60,13 +61,18 @@ func runIterBody(sc itScenario) itBodyResult {
 	clk := newManualClock(base)
 	ctr := stats.NewCounter()
 	o := &Options[int, int]{Clock: clk, Executor: func(fn func()) { fn() }, StatsRecorder: ctr,
-		ExpiryCalculator: ExpiryWriting[int, int](time.Duration(sc.TTL) * time.Second)}
+		ExpiryCalculator: ExpiryWritingFunc[int, int](func(e Entry[int, int]) time.Duration {
+			if e.Value >= 5_000_000 {
+				return 2 * time.Second // a rewrite marked "short": the new value dies long before the old one would have
+			}
+			return time.Duration(sc.TTL) * time.Second
+		})}
 	if sc.Bounded == 1 {
 		o.MaximumSize = 1 << 20
 	}
 	c := Must(o)
 	defer c.StopAllGoroutines()
-	res := itBodyResult{T: "iterbody", Sc: sc, Exp: []int64{}, Yields: [][]int64{}}
+	res := itBodyResult{T: "iterbody", Sc: sc, Exp: []int64{}, Yields: [][]int64{}, Done: [][]int64{}}
 	for k := 0; k < sc.N; k++ {
 		c.Set(k, k)
 		clk.now.Add(sc.Step * sec)
@@ -95,11 +101,20 @@ func runIterBody(sc itScenario) itBodyResult {
 			switch a.Act {
 			case "adv":
 				clk.now.Add(a.D * sec)
-			case "set":
-				c.Set(a.K, a.K+10000*ver)
+			case "set", "setshort":
+				v := a.K + 10000*ver
+				life := sc.TTL
+				if a.Act == "setshort" {
+					v += 5_000_000
+					life = 2
+				}
+				c.Set(a.K, v)
 				ver++
+				now := (clk.NowNano() - base) / sec
+				res.Done = append(res.Done, []int64{int64(a.K), 1, int64(v), now, now + life})
 			case "inv":
 				c.Invalidate(a.K)
+				res.Done = append(res.Done, []int64{int64(a.K), 0, 0, (clk.NowNano() - base) / sec, 0})
 			}
 		}
 		idx++
